@@ -1,14 +1,24 @@
 #!/bin/bash
-# seeded_check.sh <ID> [check ids...]  — apply /verif/seeded/<ID>/patch.diff (or /tmp/seed/out/<ID>) to /repo,
-# run the listed checks (default: <ID>) in the quick tier, undo the patch. Prints DETECTED/MISSED per check.
+# seeded_check.sh <ID> [check ids...]  — run the listed checks (default: <ID>, quick tier) against the seeded
+# change /verif/seeded/<ID>/patch.diff (or /tmp/seed/out/<ID>). Default mode applies the patch to a scratch
+# worktree of /repo HEAD and points the checks at it with VERIF_REPO (safe while other runs use /repo);
+# INPLACE=1 applies it to /repo itself (git -C /repo apply ...; checks; git -C /repo checkout -- .).
 ID=$1; shift
 CHECKS=${@:-$ID}
 P=/verif/seeded/$ID/patch.diff
 [ -f "$P" ] || P=/tmp/seed/out/$ID/patch.diff
-git -C /repo apply "$P" || { echo "patch does not apply"; exit 2; }
-trap 'git -C /repo checkout -- . ' EXIT
+if [ -n "$INPLACE" ]; then
+  git -C /repo apply "$P" || { echo "patch does not apply"; exit 2; }
+  trap 'git -C /repo checkout -- . ' EXIT
+  R=/repo
+else
+  R=/tmp/sk-$ID-$$
+  git -C /repo worktree add -q --detach $R HEAD || exit 2
+  git -C $R apply "$P" || { echo "patch does not apply"; git -C /repo worktree remove --force $R; exit 2; }
+  trap 'git -C /repo worktree remove --force '$R'; rm -rf /verif/build/*-x$(python3 -c "import hashlib,os;print(hashlib.sha1(os.path.realpath(\"'$R'\").encode()).hexdigest()[:6])")-*' EXIT
+fi
 for c in $CHECKS; do
-  out=$(VERIF_EVIDENCE=/tmp/seeded-ev-$$.json timeout 3000 python3 /verif/run.py check $c --tier ${TIER:-quick} 2>&1)
+  out=$(VERIF_REPO=$R VERIF_EVIDENCE=/tmp/seeded-ev-$$.json timeout 3000 python3 /verif/run.py check $c --tier ${TIER:-quick} 2>&1)
   if echo "$out" | grep -q "^VIOLATION"; then echo "DETECTED by $c: $(echo "$out" | grep -m1 '^--- failure')"; else echo "MISSED by $c: $(echo "$out" | tail -2 | head -1)"; fi
 done
 rm -f /tmp/seeded-ev-$$.json
